@@ -153,6 +153,59 @@ def ev(t, xs, x, fr):
     raise ValueError("unknown tree node %r" % (k,))
 
 
+# the same trees over the reals (mirror of Transform.den: None = not a finite real), computed with 60 significant
+# digits on the exact decimal value of the cell; informational: measures where double arithmetic departs from the
+# real-number reading (overflow, cancellation, rounding ties)
+import decimal  # noqa: E402
+
+_DCTX = decimal.Context(prec=60, Emax=10 ** 9, Emin=-10 ** 9, rounding=decimal.ROUND_HALF_EVEN)
+_CMPD = _CMPF
+
+
+def evR(t, xs, x):
+    k = t[0]
+    D = decimal.Decimal
+    if k == "X":
+        return x
+    if k == "Lit":
+        return _DCTX.divide(D(t[2]), D(t[3]))
+    if k in ("Add", "Sub", "Mul", "Div"):
+        a, b = evR(t[1], xs, x), evR(t[2], xs, x)
+        if a is None or b is None:
+            return None
+        if k == "Add":
+            return _DCTX.add(a, b)
+        if k == "Sub":
+            return _DCTX.subtract(a, b)
+        if k == "Mul":
+            return _DCTX.multiply(a, b)
+        return None if b == 0 else _DCTX.divide(a, b)
+    a = evR(t[1], xs, x) if k in ("Neg", "Sqrt", "Log", "Abs", "Pow", "Round") else None
+    if k in ("Neg", "Sqrt", "Log", "Abs", "Pow", "Round"):
+        if a is None:
+            return None
+        if k == "Neg":
+            return _DCTX.minus(a)
+        if k == "Sqrt":
+            return None if a < 0 else _DCTX.sqrt(a)
+        if k == "Log":
+            return _DCTX.ln(a) if a > 0 else None
+        if k == "Abs":
+            return _DCTX.abs(a)
+        if k == "Pow":
+            return _DCTX.power(a, t[2])
+        s = D(10) ** t[2]
+        return _DCTX.divide(_DCTX.multiply(a, s).to_integral_value(rounding=decimal.ROUND_HALF_EVEN), s)
+    if k == "Where":
+        a, b = evR(t[2], xs, x), evR(t[3], xs, x)
+        if a is None or b is None:
+            return None
+        return evR(t[4], xs, x) if _CMPD[t[1]](a, b) else evR(t[5], xs, x)
+    if k == "MaxX":
+        return max(xs) if xs else None
+    raise ValueError(k)
+
+
 # hand-written reading of the names (mirrors Transform.rd_* / fw_fun; the Coq theorems C12_named_* and C12_fw_family
 # tie the translated formulas to these readings over R; here they are evaluated in doubles on the same inputs as the
 # implementation so that a wrong formula yields a concrete failing input)
@@ -579,7 +632,7 @@ def check(run, replay):
             confirm[(i, col)] = "let tbl := %s in let pats := [%s] in %s" % (enc_list(tbl), "; ".join(pats), full)
             exprs.append(
                 "let tbl := %s in let pats := [%s] in (%s, map keep_row pats, "
-                "map (fun s => option_map (fun q => (Qnum q, Zpos (Qden q))) (parse_cell s)) %s)"
+                "map (fun s => option_map (fun q => (Qnum q, Zpos (Qden q))) (parse_cell_spec s)) %s)"
                 % (enc_list(tbl), "; ".join(pats), full if small else "true",
                    enc_list([cell_text(x) for x in cells])))
             which_of[(i, col)] = (which, small)
@@ -596,7 +649,11 @@ def check(run, replay):
     stats = {"columns": 0, "transformed_columns": 0, "values_vs_translated_expr": 0, "values_vs_reading": 0,
              "nonfinite_values": 0, "decisions_vs_independent_values": 0, "excluded_rounding_sensitive_values": 0,
              "excluded_rounding_sensitive_decisions": 0, "names_without_reading": 0, "names_without_translation": 0,
-             "parse_cells": 0, "C12_check_in_coq": 0}
+             "parse_cells": 0, "C12_check_in_coq": 0, "real_number_reading_agrees": 0,
+             "real_number_reading_differs_float_effect": 0}
+    real_budget = [60000 if run.tier == "quick" else 400000]
+    float_effects = []
+    fe_seen = set()
     fam_ok = {"names (C12_check on the implementation's rendered values)": True, "union (transformer_collection)": True,
               "parse (get_vals)": True, "values vs translated formula": True, "values vs reading of the name": True,
               "keep/drop vs independently computed values": True, "appended columns carry the rendered values": True}
@@ -668,6 +725,7 @@ def check(run, replay):
             stats["C12_check_in_coq"] += 1 if small else 0
             # -- parse
             xs = []
+            xq = []
             grammar_ok = True
             for cell, pq, iv in zip(cells, parses, r["vals"][col]):
                 t = cell_text(cell)
@@ -686,6 +744,7 @@ def check(run, replay):
                     viol("parse (get_vals)", {"preset": c["preset"], "columns": [[col, [cell]]]}, impl=iv,
                          model=str(q), clause="numeric parse of the cell (empty string = 0, quotes stripped)")
                 xs.append(xv)
+                xq.append(_DCTX.divide(decimal.Decimal(q.numerator), decimal.Decimal(q.denominator)))
             if not grammar_ok:
                 continue
             # -- names: the Coq checker on the implementation's own rendered values
@@ -768,6 +827,23 @@ def check(run, replay):
                                      impl=strs[rix], model=repr(mv),
                                      clause="%s at X=%r: implementation %s, independent evaluation of %r gives %r"
                                             % (name, x, strs[rix], formula, mv))
+                    if tre is not None and tre[0] == formula and real_budget[0] > 0:
+                        real_budget[0] -= 1
+                        try:
+                            rr = evR(tre[1], xq, xq[rix])
+                        except (decimal.InvalidOperation, decimal.Overflow, ArithmeticError):
+                            rr = "error"
+                        fin = iv == iv and not math.isinf(iv)
+                        if rr == "error":
+                            pass
+                        elif (rr is None and not fin) or (rr is not None and fin and close(iv, float(rr))):
+                            stats["real_number_reading_agrees"] += 1
+                        else:
+                            stats["real_number_reading_differs_float_effect"] += 1
+                            if len(float_effects) < 10 and (k, repr(x)) not in fe_seen:
+                                fe_seen.add((k, repr(x)))
+                                float_effects.append({"transformer": k, "X": repr(x), "double": strs[rix],
+                                                      "real": None if rr is None else "%.12g" % float(rr)})
                     if rd is not None:
                         fr = Fragile()
                         rv = rd(xs, x, fr)
@@ -806,6 +882,7 @@ def check(run, replay):
         run.oblige("correspondence:" + fam, ok)
     run.cov["input_distribution"] = hist
     run.cov["comparisons"] = stats
+    run.cov["float_effect_examples"] = float_effects
     run.cov["exhaustive"] = False
     if run.tier == "thorough" and replay is None:
         run.cov["exhaustive_small_scope"] = "all columns of length 1..4 over the cells '', 0, 1, -2, \"3\" (780), default preset"
